@@ -463,7 +463,18 @@ func c02Walk(env *core.Env, tn string, res fhir.Resource, seed uint64, maxPaths 
 	if tn == "Observation" {
 		other = "Patient"
 	}
-	for _, p := range []string{other, other + ".id", other + ".meta.lastUpdated"} {
+	roots := []string{other, other + ".id", other + ".meta.lastUpdated"}
+	// every other resource type name as root (names that are a prefix, suffix or part of this one included), and the
+	// abstract / data type names
+	for _, md := range gen.ResourceTypes() {
+		if o := string(md.Name()); o != tn {
+			roots = append(roots, o+".id")
+			if strings.Contains(tn, o) || strings.Contains(o, tn) {
+				roots = append(roots, o, o+".meta", o+".id.value", o+".text.status")
+			}
+		}
+	}
+	for _, p := range roots {
 		r := fx.Eval(env, p, in, nil, nil)
 		env.Cover("wrong-root")
 		if !r.Empty() {
